@@ -543,4 +543,69 @@ def r14_9(ctx):
     return out
 
 
-RULES = [r14_1, r14_2, r14_3, r14_4, r14_5, r14_6, r14_7, r14_8, r14_9]
+def r14_10(ctx):
+    """abstract run (W) of the Newton search Intersection.bezier_and_bezier on exact polynomial stand-in curves whose
+    crossing is known by construction (the second curve is laid through a point A(u*) of the first at its own parameter
+    v* != u*), started from the grid of pairs PlanarCurve.__and__ starts from: the crossing is among the results, for
+    exact and for float control points alike, and every returned pair lies in [0, 1]^2"""
+    from rules.C18 import _PolyCv, _MP
+    out = Outcome("R14.10", "the Newton search for crossings of curved segments finds a transversal crossing (u*, v*) with "
+                            "u* != v* -- both parameters updated by their own step, exact and float control points -- and "
+                            "returns pairs of [0, 1]^2 only", floor=4)
+    fn = ctx.fn("curve.Intersection.bezier_and_bezier")
+    arc = [(Fr(0), Fr(0)), (Fr(2), Fr(4)), (Fr(4), Fr(0))]
+    bowl = [(Fr(0), Fr(3)), (Fr(1), Fr(-2)), (Fr(5), Fr(1))]
+
+    def hook(rn, ev, call, name, recv, args, kwargs):
+        if name == "isinstance" and len(args) == 2 and isinstance(args[0], StandIn):
+            return True
+        return NotImplemented
+    cases = []
+    a = _PolyCv.bezier(arc)
+    # a straight segment through A(1/4) at its own parameter 1/2, and one through A(4/5) at 1/5
+    for ustar, vstar, d in ((Fr(1, 4), Fr(1, 2), (Fr(1), Fr(-1, 2))), (Fr(4, 5), Fr(1, 5), (Fr(1, 2), Fr(1)))):
+        px, py = a.at(ustar)
+        p0 = (px - vstar * 2 * d[0], py - vstar * 2 * d[1])
+        p1 = (p0[0] + 2 * d[0], p0[1] + 2 * d[1])
+        cases.append((f"quadratic arc (0,0),(2,4),(4,0) and a straight segment through A({ustar}) at its parameter {vstar}",
+                      arc, [p0, p1], ustar, vstar))
+    # two quadratics: the second is moved so that B(2/3) = A(1/3)
+    b0 = _PolyCv.bezier(bowl)
+    ax_, ay_ = a.at(Fr(1, 3))
+    bx_, by_ = b0.at(Fr(2, 3))
+    moved = [(x + ax_ - bx_, y + ay_ - by_) for x, y in bowl]
+    cases.append(("two quadratic arcs with A(1/3) = B(2/3)", arc, moved, Fr(1, 3), Fr(2, 3)))
+    for label, pa, pb, ustar, vstar in cases:
+        for kind in ("exact", "float"):
+            if kind == "float":
+                qa, qb = [tuple(map(float, p)) for p in pa], [tuple(map(float, p)) for p in pb]
+            else:
+                qa, qb = pa, pb
+            ca, cb = _PolyCv.bezier(qa), _PolyCv.bezier(qb)
+            us = [Fr(i, len(qa) + 2) for i in range(len(qa) + 3)]
+            vs = [Fr(i, len(qb) + 2) for i in range(len(qb) + 3)]
+            pairs = [(u, v) for u in us for v in vs]
+            saved = Ev.BUDGET
+            Ev.BUDGET = 2000000        # twenty Newton sweeps over the whole starting grid
+            try:
+                got = list(Runner(ctx, set(), hook, asserts=True).call_fn(fn, [ca, cb, pairs]))
+            except (Undecided, Raised, TypeError, ZeroDivisionError, OverflowError) as ex:
+                out.undecided(fn.qname, f"{label}, {kind}: {ex}", where=fn.where())
+                continue
+            finally:
+                Ev.BUDGET = saved
+            near = [q for q in got if abs(float(q[0]) - float(ustar)) < 1e-3 and abs(float(q[1]) - float(vstar)) < 1e-3]
+            outside = [q for q in got if not (0 <= q[0] <= 1 and 0 <= q[1] <= 1)]
+            if outside:
+                out.bad(fn.qname, "the search returns parameters outside [0, 1]^2", where=fn.where(),
+                        detail=f"{label}, {kind} control points: {[tuple(map(float, q)) for q in outside][:3]}")
+            elif not near:
+                out.bad(fn.qname, "the search does not find a transversal crossing of two segments", where=fn.where(),
+                        detail=f"{label}, {kind} control points: the crossing ({ustar}, {vstar}) is not among the "
+                               f"{len(got)} results {sorted((round(float(q[0]), 4), round(float(q[1]), 4)) for q in got)[:6]}")
+            else:
+                out.ok(fn.qname, f"{label}, {kind}: ({ustar}, {vstar}) found", where=fn.where())
+    return out
+
+
+RULES = [r14_1, r14_2, r14_3, r14_4, r14_5, r14_6, r14_7, r14_8, r14_9, r14_10]
